@@ -110,6 +110,46 @@ def splitBlocks : List Str → List (List Str)
 /-- the reader of a script of table statements separated by empty lines -/
 def readScript (text : Str) : Option (List TabDesc) := (splitBlocks (splitNL text)).mapM readTableLines
 
+/-! ### enums -/
+
+/-- what a reader of the DDL learns about an enum: the qualified name as written and the items in order -/
+structure EnumDesc where
+  qname : Str
+  items : List Str
+  deriving DecidableEq, Repr
+
+/-- `suf` removed from the end of `s` if it is there -/
+def stripSuffix? (suf s : Str) : Option Str :=
+  if suf.isSuffixOf s then some (s.take (s.length - suf.length)) else none
+
+/-- the item lines of `CREATE TYPE … AS ENUM (`: two blanks, the item between single quotes, a comma except on the last -/
+def readEnumItems : List Str → Option (List Str)
+  | [] => none
+  | [l] =>
+    match l with
+    | ' ' :: ' ' :: '\'' :: r => stripSuffix? ['\''] r |>.map fun n => [n]
+    | _ => none
+  | l :: l2 :: ls =>
+    match l with
+    | ' ' :: ' ' :: '\'' :: r =>
+      match stripSuffix? ['\'', ','] r, readEnumItems (l2 :: ls) with
+      | some n, some ns => some (n :: ns)
+      | _, _ => none
+    | _ => none
+
+/-- the reader of the lines of an enum statement -/
+def readEnumLines (lines : List Str) : Option EnumDesc :=
+  match lines with
+  | h :: rest =>
+    match stripKw (lit "CREATE TYPE ") h with
+    | (true, q) =>
+      match stripSuffix? (lit " AS ENUM (") q with
+      | some qn =>
+        if rest.getLast? = some (lit ");") then (readEnumItems rest.dropLast).map fun is => ⟨qn, is⟩ else none
+      | none => none
+    | _ => none
+  | [] => none
+
 end C03
 end PyDBML
 
@@ -198,4 +238,30 @@ def readFk (s : Str) : Option FkDesc :=
   | _ => none
 
 end C04
+end PyDBML
+
+namespace PyDBML
+namespace C03
+
+/-- one statement of a script, as read -/
+inductive Stmt where
+  | enum (d : EnumDesc)
+  | table (d : TabDesc)
+  | fk (d : C04.FkDesc)
+  deriving DecidableEq, Repr
+
+/-- the reader of one block of lines (what stands between two empty lines of the script) -/
+def readBlock (lines : List Str) : Option Stmt :=
+  match lines with
+  | [] => none
+  | h :: rest =>
+    if (lit "CREATE TYPE ").isPrefixOf h then (readEnumLines lines).map Stmt.enum
+    else if (lit "CREATE TABLE ").isPrefixOf h then (readTableLines lines).map Stmt.table
+    else if (lit "ALTER TABLE ").isPrefixOf h ∧ rest = [] then (C04.readFk h).map Stmt.fk
+    else none
+
+/-- the reader of a whole script: enum, table and foreign-key statements separated by empty lines -/
+def readScriptAll (text : Str) : Option (List Stmt) := (splitBlocks (splitNL text)).mapM readBlock
+
+end C03
 end PyDBML
